@@ -149,7 +149,8 @@ class PID_GH(BasePID):
         if len(sources) == 1:
             return mutual_information(d, sources[0], target)
         md = d.coalesce(sources)
-        upper_bound = prod(len(a) for a in md.alphabet) + 1
+        # always leave at least one bound to try, also when the sources are constants
+        upper_bound = max(prod(len(a) for a in md.alphabet), md.outcome_length()) + 1
         for bound in range(upper_bound, md.outcome_length(), -1):
             try:
                 gho = GHOptimizer(d, sources, target, bound=bound)
